@@ -550,6 +550,11 @@ class HostConnection(object):
 
     def _set_keyspace_for_all_conns(self, keyspace, callback):
         if self.is_shutdown or not self._connection:
+            # no connection to switch right now: remember the keyspace for a
+            # connection opened later, and report completion so that the
+            # session-level switch does not wait forever
+            self._keyspace = keyspace
+            callback(self, [])
             return
 
         def connection_finished_setting_keyspace(conn, error):
